@@ -64,6 +64,9 @@ type Finding struct {
 	Model  string   `json:"model,omitempty"`
 	Expect string   `json:"expect,omitempty"`
 	Note   string   `json:"note,omitempty"`
+	// Exact: a correspondence finding of a unit whose model result is, by a theorem of the property
+	// file, the result the property requires: the input is then a failing input of the property.
+	Exact bool `json:"exact,omitempty"`
 }
 
 type Unit struct {
@@ -77,6 +80,8 @@ type Unit struct {
 	// the shrinker may drop any of them.
 	ShrinkOps  bool
 	KeepPrefix int
+	// SpecExact: see Finding.Exact
+	SpecExact bool
 }
 
 var units []*Unit
@@ -165,6 +170,7 @@ func (t *T) record(f Finding, in In) {
 	}
 	f = t.shrink(f, in)
 	f.Pretty = f.Input.Pretty()
+	f.Exact = f.Kind == "corr" && t.U.SpecExact
 	t.mu.Lock()
 	t.Findings = append(t.Findings, f)
 	t.mu.Unlock()
